@@ -39,6 +39,9 @@ import (
 
 var memfs = afero.NewMemMapFs()
 
+// fsys: what the real code sees — the in-memory file system behind the fault injector (faultfs.go)
+var fsys = &faultFs{Fs: memfs}
+
 // data files every description may point to (created once, before any case runs)
 var dataFiles = map[string]string{
 	"users.csv":         "user_id,name,pass\n1,John,secret\n2,Jack,qwerty\n3,Jim,12345\n",
@@ -55,11 +58,11 @@ func setup() {
 			panic(err)
 		}
 	}
-	scenarioimport.Import(memfs)
+	scenarioimport.Import(fsys)
 	pluginconfig.AddHooks()
 	// compile the decode hooks once, single-threaded (core/config compiles them lazily without a lock)
 	_ = afero.WriteFile(memfs, "warmup/a.yaml", []byte("requests: []\n"), 0o644)
-	_, _ = config.ReadAmmoConfig(memfs, "warmup/a.yaml")
+	_, _ = config.ReadAmmoConfig(fsys, "warmup/a.yaml")
 }
 
 // ---------------------------------------------------------------- running one case
@@ -72,7 +75,7 @@ func caseDir(input string) string {
 var debug = os.Getenv("C16_DEBUG") != ""
 
 func readCfg(path string) (string, *config.AmmoConfig) {
-	cfg, err := config.ReadAmmoConfig(memfs, path)
+	cfg, err := config.ReadAmmoConfig(fsys, path)
 	if debug {
 		b, _ := afero.ReadFile(memfs, path)
 		fmt.Fprintf(os.Stderr, "---- %s\n%s---- err: %v\n", path, b, err)
@@ -159,10 +162,9 @@ func ammoOf(kind, path string) ([]string, []string, bool) {
 	return out, dig, true
 }
 
-// runCase with its own two-stage watchdog: a case normally takes milliseconds; one that has not finished after
-// softLimit is given until hardLimit (a loaded or cold machine), and when it still has not finished the observation is
-// SLOW, which the model driver counts as `skip:inconclusive-timeout` — never as a failure (the framework's own HANG
-// limit is set above hardLimit)
+// runCase with a last-resort watchdog of its own (the limits that count are the parent's, child.go: first attempt,
+// then alone beside a reference case): a case that has not finished after hardLimit is SLOW, which the model driver
+// counts as `skip:inconclusive-timeout` — never as a failure
 const (
 	softLimit = 20 * time.Second
 	hardLimit = 150 * time.Second
@@ -340,11 +342,21 @@ func runCase1(input string) string {
 		ch, cy := companion(sx, 0)
 		write(hp, ch)
 		write(yp, cy)
-		_, _ = config.ReadAmmoConfig(memfs, hp)
-		_, _ = config.ReadAmmoConfig(memfs, yp)
+		_, _ = config.ReadAmmoConfig(fsys, hp)
+		_, _ = config.ReadAmmoConfig(fsys, yp)
 	}
 	write(hp, hclText)
 	write(yp, yamlText)
+	if ff := m["ff"]; ff != "" {
+		ph, ok1 := parseFaultPlan(ff, hclText, true)
+		py, ok2 := parseFaultPlan(ff, yamlText, false)
+		if !ok1 || !ok2 {
+			return "BADINPUT fault plan"
+		}
+		fsys.arm(hp, ph)
+		fsys.arm(yp, py)
+		defer func() { fsys.disarm(hp); fsys.disarm(yp) }()
+	}
 	if co == "par" {
 		stop := make(chan struct{})
 		var wg sync.WaitGroup
@@ -363,8 +375,8 @@ func runCase1(input string) string {
 						return
 					default:
 					}
-					_, _ = config.ReadAmmoConfig(memfs, chp)
-					_, _ = config.ReadAmmoConfig(memfs, cyp)
+					_, _ = config.ReadAmmoConfig(fsys, chp)
+					_, _ = config.ReadAmmoConfig(fsys, cyp)
 				}
 			}()
 		}
@@ -486,6 +498,12 @@ func class(input, obs string) string {
 	}
 	if m["nb"] != "" {
 		parts = append(parts, "numeric-boundary")
+	}
+	if m["big"] != "" {
+		parts = append(parts, "large-file")
+	}
+	if ff := m["ff"]; ff != "" {
+		parts = append(parts, "io-fault-"+strings.TrimRight(strings.Split(ff, "+")[0], "0123456789"))
 	}
 	if strings.Contains(obs, " A=ERR") {
 		parts = append(parts, "ammo-refused")
@@ -958,6 +976,33 @@ func (g *gen) describe() *Node {
 	return nMap(g.shuffle(top))
 }
 
+// enlarge: n more steps of the kind the description has; the last one is used by the first scenario (a file cut short
+// loses it)
+func (g *gen) enlarge(d *Node, n int) {
+	key := "request"
+	if l := d.get("request"); l == nil || len(l.L) == 0 {
+		key = "call"
+	}
+	steps := d.get(key)
+	if steps == nil {
+		return
+	}
+	last := ""
+	for i := 0; i < n; i++ {
+		last = "bulk" + strconv.Itoa(i)
+		if key == "call" {
+			steps.L = append(steps.L, g.call(last))
+		} else {
+			steps.L = append(steps.L, g.request(last))
+		}
+	}
+	if scs := d.get("scenario"); scs != nil && len(scs.L) > 0 {
+		if rs := scs.L[0].get("requests"); rs != nil {
+			rs.L = append(rs.L, nStr(last))
+		}
+	}
+}
+
 // mutate: make the description wrong in a way BOTH front-ends must refuse (or both accept)
 func (g *gen) mutate(d *Node) {
 	all := func(key string) []*Node {
@@ -1126,6 +1171,34 @@ var namePairs = [][2]string{
 	{"hcl.yaml.HCL", "hcl.yaml.YAML"}, {"x..hcl", "x..yaml"}, {"UPPER.hcl", "UPPER.yaml"}, {"payload.json.hcl", "payload.json.yaml"},
 }
 
+// faultToken: one fault (mostly a read fault at an item boundary, where the prefix read so far is a well-formed
+// file of its own), sometimes two that coincide
+func faultToken(r *rand.Rand) string {
+	one := func() string {
+		switch x := r.Intn(100); {
+		case x < 6:
+			return "open"
+		case x < 12:
+			return "stat"
+		case x < 24:
+			return "close"
+		case x < 32:
+			return "read1000"
+		case x < 36:
+			return "read0"
+		default:
+			return "read" + strconv.Itoa(50+r.Intn(940))
+		}
+	}
+	t := one()
+	if r.Intn(100) < 15 {
+		if u := one(); u != t && !(strings.HasPrefix(u, "read") && strings.HasPrefix(t, "read")) {
+			t += "+" + u
+		}
+	}
+	return t
+}
+
 func nameTokens(r *rand.Rand) string {
 	p := namePairs[r.Intn(len(namePairs))]
 	return "hn=" + hex.EncodeToString([]byte(p[0])) + " yn=" + hex.EncodeToString([]byte(p[1]))
@@ -1193,6 +1266,25 @@ func generate(r *rand.Rand, tier string) []string {
 			out = append(out, l)
 		}
 	}
+	// I/O faults at a particular point of reading the two files (faultfs.go): whatever the front-end, a file that
+	// could not be read completely must be refused
+	nf := 160
+	if tier == "thorough" {
+		nf = 3000
+	}
+	for i := 0; i < nf; i++ {
+		out = append(out, line(r.Int63n(1<<40), 0, g.describe(), "ff="+faultToken(r)))
+	}
+	// LARGE descriptions: 80–300 more steps, the files are 30–200 KB (buffers, single reads, size limits of the hop)
+	nbig := 6
+	if tier == "thorough" {
+		nbig = 80
+	}
+	for i := 0; i < nbig; i++ {
+		d := g.describe()
+		g.enlarge(d, 80+r.Intn(220))
+		out = append(out, line(r.Int63n(1<<40), 0, d, "big=1"))
+	}
 	// every pair of file names once
 	for _, p := range namePairs {
 		out = append(out, line(r.Int63n(1<<40), 0, g.describe(), "hn="+hex.EncodeToString([]byte(p[0]))+" yn="+hex.EncodeToString([]byte(p[1]))))
@@ -1211,6 +1303,7 @@ func main() {
 	for i, a := range os.Args {
 		if (a == "-tier" || a == "--tier") && i+1 < len(os.Args) && os.Args[i+1] == "thorough" {
 			workers = 14
+			setLimits("thorough")
 		}
 	}
 	poolSize = workers
@@ -1220,7 +1313,7 @@ func main() {
 		Run:     runViaChild,
 		Class:   class,
 		Workers: workers,
-		Timeout: hardLimit + 40*time.Second,
+		Timeout: frameworkTimeout(),
 		Rule: "random scenario descriptions (http requests or grpc calls, all registered variable sources / processors / templaters, 1-3 scenarios " +
 			"with weights, min_waiting_time, multipliers and sleeps; optional fields present, absent or present-and-zero; strings drawn from realistic " +
 			"values, YAML-1.1-special words, unicode incl. line separators/BOM, whitespace/newline shapes, HCL template characters) are printed by the " +
